@@ -138,7 +138,7 @@ def gen_trace(recipe):
   elif shape_kind == 'large_scale':
     X = X * 64.0                              # unscaled features: squared distances in the thousands
   elif shape_kind == 'huge_scale':
-    X = X * 2.0 ** 23                         # raw features of magnitude 1e7 (LMNN: the step size is halved dozens of times)
+    X = X * float(2.0 ** int(rng.choice([23, 27, 30])))   # raw features of magnitude 1e7..1e9 (LMNN: the step size is halved dozens of times, below machine epsilon)
   k = None if rng.random() < 0.4 else int(rng.integers(1, d + 1))
   init = str(rng.choice(['identity', 'pca', 'random', 'auto', 'array'] + (['lda'] if algo != 'MLKR' else [])))
   kk = k or d
